@@ -61,6 +61,8 @@ public:
     std::vector<char> delivered;           //!< per ref block: full block given to the node at least once
     std::vector<char> header_given;
     uint64_t cb_nonce{0};
+    struct DeliveryRec { int idx; bool force; bool accepted; bool has_verdict; bool valid; int result; std::string reason; };
+    std::vector<DeliveryRec> delivery_log;  //!< every ProcessNewBlock call in order (twin runs replay it)
     int64_t start_time{0};
     int reorgs{0};
     std::function<void(NodeOpts&)> tweak_opts;              //!< engines adjust node options before the node starts
